@@ -36,7 +36,7 @@ ASSUMPTIONS = [
 BUDGET = {"quick": {"examples": 8000, "seconds": 60}, "thorough": {"examples": 250000, "seconds": 1500}}
 
 PROFILE = Profile(
-    ops={"arith", "index", "tensor", "var", "cond", "math", "pow", "shortcut", "abs"},
+    ops={"arith", "index", "tensor", "var", "cond", "math", "pow", "shortcut", "abs", "capture"},
     leaves={"coef", "const", "lit", "zero", "x"},
     max_rank=2, elements="lagrange", manifolds=False, nindex=4,
     weights={"var": 2, "comp": 4, "indexfree": 4, "contract": 3, "mul": 3},
@@ -124,8 +124,11 @@ def check_case(case):
             if not form.integrals():
                 raise Discard("empty form")
             outf = renumber_indices(form)
-            (itg,) = outf.integrals()
-            out = itg.integrand()
+            if not outf.integrals():  # an integrand that is identically zero is dropped from the form
+                out = ufl.classes.Zero()
+            else:
+                (itg,) = outf.integrals()
+                out = itg.integrand()
         out = ufl.as_ufl(out)
     except Discard:
         raise
